@@ -6,7 +6,7 @@
 (* implicit '1'.  A state whose stack holds one complete right-hand side is a test case.      *)
 EXTENDS TermAlgebra, Json, IOUtils, CSV
 CONSTANTS Atoms, GAtoms, MaxOps, DoExport
-AtomOrderDef == <<"a", "b", "c", "d", "F", "H", "Q", "K", "L", "M", "N", "O", "P", "R", "S", "g", "h", "k">>   \* cfg: AtomOrder <- AtomOrderDef
+AtomOrderDef == <<"a", "b", "c", "d", "F", "H", "Q", "K", "L", "M", "N", "O", "P", "R", "S", "U", "V", "W", "g", "h", "k">>   \* cfg: AtomOrder <- AtomOrderDef
 VARIABLE st    \* stack of [t: tree, k: kind, n: operators]
 \* kinds: "top" right-hand side chain (bottom), "te" term expression, "lit" 0/1, "neg1",
 \*        "ch" additive chain with literals (effect side), "ge" grouping expression, "grp" (e|g)
